@@ -125,6 +125,9 @@ def bounds(tier: str, seed: int) -> dict:
 
 def cases(tier: str, seed: int):
     base = 6 if tier == "quick" else 8
+    # CLI plumbing slice: the same oracle through a real file and `reuse lint --json`
+    for s in seqs(3 if tier == "quick" else 4):
+        yield "@" + s
     yield from seqs(base)
     if tier == "quick":
         first = ALPHABET[seed % 7]
@@ -132,7 +135,47 @@ def cases(tier: str, seed: int):
             yield first + "".join(tup)
 
 
+def evaluate_cli(toks: str) -> R:
+    """A file holding the rendered sequence is linted; what lint attributes to
+    it must equal the tags the reference machine sees outside blocks."""
+    import json
+
+    from ..cli import run_cli
+    from ..core import fresh_dir
+
+    r = R()
+    r.evals = 0
+    r.validated = 0
+    for prefix in (False, True):
+        text = render(toks, " ", prefix)
+        by_construction = all((t not in "LCK") or i == len(toks) - 1 or toks[i + 1] == "N" for i, t in enumerate(toks))
+        if not text.strip():
+            continue
+        root = fresh_dir("c12")
+        (root / "f.txt").write_text(text + "\n")
+        out = run_cli(["--root", str(root), "--no-multiprocessing", "lint", "--json"])
+        r.evals += 1
+        if out.exc or out.exit_code not in (0, 1):
+            r.violation("cli-lint-failed", f"lint on {text!r}: {out.brief()}")
+            continue
+        f = [x for x in json.loads(out.stdout)["files"] if x["path"] == "f.txt"][0]
+        got = ("ok", tuple(sorted(x["value"] for x in f["spdx_expressions"])), tuple(sorted(x["value"] for x in f["copyrights"])))
+        want = observe(ref_filter(text + "\n")[0])
+        want = ("ok", want[1], want[2]) if want[0] == "ok" else ("ok", (), ())
+        if want[1] == () and want[2] == () and False:
+            pass
+        r.validated += 1
+        if got != want:
+            r.violation("cli-differs-from-reference", f"file {text!r}: lint attributes {got[1:]}, reference scanner + tag reader give {want[1:]}")
+    r.outcome = "cli"
+    r.tags.append("cli")
+    r.nontrivial = "S" in toks and any(t in toks for t in "LC")
+    return r
+
+
 def evaluate(toks: str) -> R:
+    if toks.startswith("@"):
+        return evaluate_cli(toks[1:])
     r = R()
     r.evals = 0
     r.validated = 0
@@ -174,6 +217,8 @@ def evaluate(toks: str) -> R:
 
 
 def vacuity(st) -> str | None:
+    if st.tags.get("cli", 0) < 10:
+        return "CLI slice did not run"
     if st.tags.get("closed-block", 0) < 10:
         return "no sequences with a closed ignore block"
     if len(st.outcomes) < 5:
